@@ -43,5 +43,49 @@ def main(tier, seed):
     idx = [i for i, ev in enumerate(it3["trace"]["events"]) if ev[0] == "s" and ev[1] == "lock"][2]
     it3["trace"]["events"][idx][1] = "fut.result"
     expect("RexAsyncTrace rejects a wrong kind of scheduling point", internalchecks._validate(it3)["status"] == "rejected")
+    # 3. RexSchedule / RexRun: a real compiled graph (recorded, two episodes) and one jitted rollout, then corrupted copies
+    from . import compiledchecks as cc
+    cj = dict(kind="pyfunc", module="harness.compiled_jobs", func="run_job", id="stc", cfg=cfg, seed=2, source="record", match_async=True,
+              modes=[["mcs", True, {}]], runs=[dict(eps=0, history=["rollout:99"])],
+              histories=[asyncchecks._hist_step(6), asyncchecks._hist_run(5)], timeout=900)
+    cr = common.run_jobs([cj])[0]
+    if not cr.get("ok") or not cr.get("runs"):
+        expect("compiled job ran", False, cr.get("error", cr))
+    else:
+        st, rt = cr["static"][0], cr["runs"][0]
+        s1 = copy.deepcopy(st); s1["id"] = "sched-window"
+        g = next(g for g in s1["gens"] if g["slots"] and any(sl["wins"] for sl in g["slots"]))
+        sl = next(sl for sl in g["slots"] if sl["wins"]); a0 = sorted(sl["wins"])[0]; sl["wins"][a0][-1]["seq"] += 1
+        s2 = copy.deepcopy(st); s2["id"] = "sched-dup"
+        g2 = next(g for g in s2["gens"] if g["slots"] and not g["last"]); g2["slots"].append(copy.deepcopy(g2["slots"][0]))
+        vs, _ = engine.validate_parallel([st, s1, s2], module="RexSchedule")
+        expect("RexSchedule accepts the real Graph.timings", vs[0]["verdict"] == "accept", vs[0])
+        expect("RexSchedule rejects a shifted window entry", vs[1]["verdict"] == "reject", vs[1])
+        expect("RexSchedule rejects a slot scheduled twice", vs[2]["verdict"] == "reject", vs[2])
+        r1 = copy.deepcopy(rt); r1["id"] = "run-payload"
+        le = next(e for e in r1["log"] if any(w and w[-1]["seq"] >= 0 for w in e["wins"].values()))
+        a1 = next(a for a, w in le["wins"].items() if w and w[-1]["seq"] >= 0); le["wins"][a1][-1]["h"] += 1
+        r2 = copy.deepcopy(rt); r2["id"] = "run-dup"; r2["log"].insert(1, copy.deepcopy(r2["log"][0]))
+        r3 = copy.deepcopy(rt); r3["id"] = "run-ref"
+        k3 = next(k for k, v in r3["ref"].items() if len(v) > 1); r3["ref"][k3][1]["h"] += 1
+        vs, _ = engine.validate_parallel([rt, r1, r2, r3], module="RexRun")
+        expect("RexRun accepts the real compiled replay of the recorded episode", vs[0]["verdict"] == "accept", vs[0])
+        expect("RexRun rejects a changed window payload", vs[1]["verdict"] == "reject" and vs[1]["clause"] in ("ReadsRing", "StepOutput", "PayloadOfNamedSeq", "MatchesAsync_Window"), vs[1])
+        expect("RexRun rejects a duplicated execution", vs[2]["verdict"] == "reject" and vs[2]["clause"].startswith("ExactlyOnce"), vs[2])
+        expect("RexRun rejects a changed asynchronous reference (C01)", vs[3]["verdict"] == "reject" and vs[3]["clause"].startswith("MatchesAsync"), vs[3])
+    # 4. RexOrder: a real continuous-distribution episode pair, then corrupted copies
+    oj = common.run_jobs([dict(kind="pyfunc", module="harness.order", func="order_job", id="sto", cfg=cfg, seed=3, mode="continuous", nsteps=5, episodes=2,
+                               timeout=600)])[0]
+    if not oj.get("ok") or len(oj.get("traces", [])) < 2:
+        expect("order job ran", False, oj.get("error", oj))
+    else:
+        o0, o1 = oj["traces"][0], oj["traces"][1]
+        x = next(k for k, v in o0["msgs"].items() if len(v) > 2)
+        m1 = copy.deepcopy(o0); m1["id"] = "order-fifo"; m1["msgs"][x][2]["recv"] = m1["msgs"][x][1]["recv"] - 1
+        m2 = copy.deepcopy(o1); m2["id"] = "order-det"; m2["steps"][o1["cfg"]["conns"][x]["dst"]][1]["start"] += 1; m2["steps"][o1["cfg"]["conns"][x]["dst"]][1]["end"] += 1
+        vs, _ = engine.validate_parallel([o0, o1, m1, m2], module="RexOrder")
+        expect("RexOrder accepts two schedules of a continuous-delay episode", vs[0]["verdict"] == "accept" and vs[1]["verdict"] == "accept", vs[:2])
+        expect("RexOrder rejects an arrival that goes backwards", vs[2]["verdict"] == "reject", vs[2])
+        expect("RexOrder rejects a run that differs from the reference schedule", vs[3]["verdict"] == "reject", vs[3])
     print("SELFTEST", "passed" if ok else "FAILED")
     return 0 if ok else 1
